@@ -503,6 +503,10 @@ func Serialize(l *Logical) ([]byte, error) {
 		for _, r := range ent.Responses {
 			val = append(val, refcbor.EncUint(locs[r.Exchange].off), refcbor.EncUint(locs[r.Exchange].length))
 		}
+		if !refcbor.ValidUTF8([]byte(ent.URL)) {
+			// an index key is a CBOR text string (RFC 8949 3.1: valid UTF-8); such a bundle cannot be represented
+			return nil, refuse("url-not-utf8", fmt.Sprintf("URL %q is not valid UTF-8", ent.URL))
+		}
 		kvs = append(kvs, refcbor.KV{K: refcbor.EncText(ent.URL), V: refcbor.EncArray(val...)})
 	}
 	index, err := refcbor.EncMap(kvs)
